@@ -735,3 +735,37 @@ def _eval_const(e):
         fn = ops.get(type(e.op))
         return fn(a, b) if fn else None
     return None
+
+
+def node_local_writes(n):
+    """local names / attribute chains (re)bound by CFG node n itself."""
+    from ..model import local_writes_of_stmt
+
+    if n.stmt is None or n.kind not in ("stmt", "for", "with"):
+        return set()
+    out = set(local_writes_of_stmt(n.stmt))
+    if n.kind == "stmt" and isinstance(n.stmt, ast.AugAssign):
+        c = attr_chain(n.stmt.target)
+        if c:
+            out.add(c)
+    return out
+
+
+def reaching_defs(cfg, nid, name):
+    """CFG nodes that write `name` and from which node `nid` is reachable without another write to it in between."""
+    writers = [n.id for n in cfg.nodes if name in node_local_writes(n)]
+    out = []
+    for w in writers:
+        others = [o for o in writers if o != w]
+        if nid in cfg.reach([w], avoid=others):
+            out.append(w)
+    return out
+
+
+def unchanged_between(cfg, a, b, name):
+    """no write to `name` on any path from node a to node b (a and b themselves excluded)."""
+    writers = [n.id for n in cfg.nodes if name in node_local_writes(n) and n.id not in (a, b)]
+    for w in writers:
+        if w in cfg.reach([a]) and b in cfg.reach([w]):
+            return False
+    return True
